@@ -6,6 +6,7 @@ import PhononModel.Gen.Units
 import PhononModel.Lemmas.UnitAlgebra
 import Mathlib.Tactic.FinCases
 import Mathlib.Tactic.NormNum
+import PhononModel.Lemmas.FrequencyOrder
 /-!
 # C02 — the computed dynamical matrix is the lattice Fourier sum of the force constants
 
@@ -181,6 +182,15 @@ theorem frequency_scales_with_sqrt {sqrt : K → K} (h : IsSqrt sqrt) (factor ev
     frequency sqrt factor (c * ev) = sqrt c * frequency sqrt factor ev :=
   frequency_scaling h factor ev c hc
 
+/-- (10b) **band order is eigenvalue order**: the map eigenvalue ↦ frequency is strictly increasing on the whole
+line (imaginary modes below zero modes below real modes, order kept inside each class), hence injective:
+sorting, degeneracy detection and band connection done on frequencies agree with the same done on eigenvalues. -/
+theorem frequency_strictly_increasing {sqrt : K → K} (h : IsSqrt sqrt) (factor : K) (hf : 0 < factor) :
+    StrictMono (frequency sqrt factor) := fun _ _ hab => frequency_strictMono h factor hf hab
+
+theorem frequency_injective {sqrt : K → K} (h : IsSqrt sqrt) (factor : K) (hf : 0 < factor) :
+    Function.Injective (frequency sqrt factor) := (frequency_strictly_increasing h factor hf).injective
+
 end frequencies
 
 /-! ### the unit factor (tied to the monomials generated from `phonopy/units.py`, see C17) -/
@@ -244,3 +254,5 @@ end PhononModel.C02
 #print axioms PhononModel.C02.vaspToTHz_sq_real
 #print axioms PhononModel.C02.dynmatCF_spec
 #print axioms PhononModel.C02.dynmatPyF_spec
+#print axioms PhononModel.C02.frequency_strictly_increasing
+#print axioms PhononModel.C02.frequency_injective
